@@ -563,7 +563,7 @@ def synth_dropbox_valid(rng):
     def S(b):
         return b"s" + struct.pack("<i", len(b)) + b
 
-    nest = rng.choice([0, 0, 0, 1, 3, 40, 320])
+    nest = rng.choice([0, 0, 0, 0, 0, 0, 0, 0, 1, 1, 3, 3, 40, 320])
     ln = rng.choice([8, 60, 600, 6000, 30000, 60000]) if nest == 0 else rng.choice([8, 60, 120])
     mix = rng.choice(["unknown", "known", "mixed"])
     if mix == "unknown":
@@ -598,7 +598,7 @@ def synth_shared_tables(rng):
     large shared object - per-code-object work that is quadratic in the table length multiplies up"""
     magic = rng.choice([3495, 3531, 3571])
     ln = rng.choice([2000, 20000, 40000])
-    n = rng.choice([3, 12, 25])
+    n = rng.choice([3, 6, 12])
     big = bytes([0xF3]) + struct.pack("<i", ln) + bytes([rng.choice([0xA0, 0xE0, 0x80, 0xC0])]) * ln  # 's' | FLAG_REF -> slot 0
     # (bytes >= 0x80 that are not valid UTF-8, so that the shared table stays a bytes object: its items are ints
     # with the CO_FAST_LOCAL / CELL / FREE bits set)
@@ -621,7 +621,7 @@ def synth_not_bytecode(rng, magics):
                        "magic+pattern", "source", "magic+marshalish", "dropbox_like"])
     if kind == "dropbox_like" and rng.chance(1, 3):
         return synth_dropbox_valid(rng)
-    if kind == "magic+marshalish" and rng.chance(1, 4):
+    if kind == "magic+marshalish" and rng.chance(1, 10):
         return synth_shared_tables(rng)
     if kind == "dropbox_like":
         # the encrypted-code layout of the dropbox loader: 'c', two key words (the second is also the byte count),
